@@ -110,7 +110,7 @@ pub fn main(args: &[String]) -> i32 {
         let mut r = rng(18);
         for _ in 0..n {
             let s = gen(&mut r, maxv);
-            run_scenario(&mut out, &s, true);
+            guarded(&mut out, |o| run_scenario(o, &s, true));
         }
     }
     out.flush();
